@@ -130,7 +130,7 @@ def codegen_eval(run, model, tc):
                     for arg in ('s1', cb('s1')):
                         n_eval += 1
                         try:
-                            text = pureeval.call(tc.node, [me, arg], globals_=dict(modfuncs, signals=sig, namedtuple=collections.namedtuple), mutable=True, strict_locals=True, module_names=modnames)
+                            text = pureeval.call(tc.node, [me, arg], globals_=dict(pureeval.module_constants(model, tc.module), **dict(modfuncs, signals=sig, namedtuple=collections.namedtuple)), mutable=True, strict_locals=True, module_names=modnames)
                         except pureeval.Raised as ex:
                             text = None
                             probs = ['to_code raises %s' % ex.what]
@@ -289,25 +289,76 @@ def codegen_fragments(run, model, tc):
     run.inst('CODEGEN.fragments', tc, 'missing and default callbacks are emitted as HANDLED', ok, 'the default `handled` callback is emitted as a call to an undefined name', obligation=True)
 
 
-def check(run, model, tier):
-    run.explanation = ('Protocol-shape analysis of the template-generated handler, key-structure agreement of the two registries between their '
-                       'writers, the runtime readers and to_code, a complete enumeration of the text fragments to_code can emit (assembled with '
-                       'placeholder identifiers, parsed, and checked against the handler shape the processor assumes), and attribute-type discipline '
-                       'of Factory. Equality of behaviour for every event sequence is not decided; these are its structural necessary conditions.')
-    for r, t in (('TEMPLATE.protocol', 'generated handler: callback status returned; UNHANDLED -> (SUPER, parent) into (status, temp.fun)'),
-                 ('TABLE.registries', '_lookup[name][signal] and _parents[name]: writers, runtime readers and to_code agree'),
-                 ('CODEGEN.fragments', 'all emitted fragments, assembled, parse into a protocol-conforming handler'),
-                 ('FACTORY.attributes', 'Factory subscripts only its name->blueprint table; create/nest/catch/start_at/to_code wiring')):
-        run.rule(r, t)
-    hq = model.cls('HsmWithQueues')
-    tmpl = model.func('hsm.state_method_template')
-    base = list(tmpl.nested.values())
-    if len(base) != 1:
-        raise AnalysisError('state_method_template: expected one nested handler')
-    bh = base[0]
-    g = cfg_of(bh)
-    run.touch(bh, g)
-    chart, ev = bh.params[0], bh.params[1]
+def template_eval(run, model, bh):
+    """the handler state_method_template generates, evaluated with stub context managers for the two registries: for a plain-function callback, a bound-method
+    callback and no callback at all, answering HANDLED / UNHANDLED / TRAN / IGNORED, the handler must call the callback once with the right arguments, return its
+    answer, and exactly for UNHANDLED answer SUPER with the registered parent written to chart.temp.fun"""
+    from sa import pureeval
+    run.rule('TEMPLATE.eval', 'generated handler evaluated over callback kind {function, bound method, none} x answer {HANDLED, UNHANDLED, TRAN, IGNORED}: callback called once by its kind, '
+                              'answer returned, UNHANDLED -> (SUPER, registered parent) into (status, chart.temp.fun)')
+    RS = pureeval.Obj(SUPER=1, SUPER_SUB=2, UNHANDLED=3, HANDLED=4, IGNORED=5, ENTRY=6, EXIT=7, NULL=8, TRAN=9)
+    PARENT = pureeval.Obj(__name__='the_parent')
+    bad, n_ev = None, 0
+    try:
+        for kind in ('function', 'method', 'none'):
+            for ans_name in ('HANDLED', 'UNHANDLED', 'TRAN', 'IGNORED'):
+                if kind == 'none' and ans_name != 'UNHANDLED':
+                    continue
+                ans = getattr(RS, ans_name)
+                calls = []
+                if kind == 'method':
+                    def cb(*a, _ans=ans):
+                        calls.append(('method', a))
+                        return _ans
+                else:
+                    def cb(*a, _ans=ans):
+                        calls.append(('function', a))
+                        return _ans
+                asked = []
+
+                def signal_callback(e_, name_, _cb=cb):
+                    asked.append(('signal', e_, name_))
+                    return pureeval.Obj(__enter__=lambda: _cb)
+
+                def parent_callback(name_=None):
+                    asked.append(('parent', name_))
+                    return pureeval.Obj(__enter__=lambda: PARENT)
+                OLD = pureeval.Obj(__name__='cursor_before')
+                chart = pureeval.Obj(signal_callback=signal_callback, parent_callback=parent_callback, temp=pureeval.Obj(fun=OLD), state=pureeval.Obj(fun=OLD))
+                e = pureeval.Obj(signal=11, signal_name='A')
+                insp = pureeval.Obj(ismethod=lambda f, _k=kind: _k == 'method')
+                n_ev += 1
+                try:
+                    got = pureeval.call(bh.node, [chart, e], globals_={'return_status': RS, 'inspect': insp, 'name': 'the_state'}, mutable=True, strict_locals=True)
+                except pureeval.Raised as ex_:
+                    got = 'raises ' + ex_.what
+                want_ret = RS.SUPER if ans_name == 'UNHANDLED' else ans
+                want_cursor = PARENT if ans_name == 'UNHANDLED' else OLD
+                want_call = ('method', (e,)) if kind == 'method' else ('function', (chart, e))
+                probs = []
+                if got != want_ret:
+                    probs.append('returns %r, expected %r' % (got, want_ret))
+                if chart.temp.fun is not want_cursor:
+                    probs.append('leaves chart.temp.fun = %s' % getattr(chart.temp.fun, '__dict__', {}).get('__name__', chart.temp.fun))
+                if calls != [want_call]:
+                    probs.append('calls the callback %s' % ([(k_, len(a_)) for k_, a_ in calls],))
+                if not any(a_[0] == 'signal' and a_[1] is e and a_[2] == 'the_state' for a_ in asked):
+                    probs.append('does not ask signal_callback(e, name)')
+                if ans_name == 'UNHANDLED' and not any(a_[0] == 'parent' and a_[1] in ('the_state', None) for a_ in asked):
+                    probs.append('does not ask parent_callback(name)')
+                if probs and bad is None:
+                    bad = (kind, ans_name, probs)
+    except AnalysisError as ex_:
+        run.note('the template handler is outside the evaluator\'s fragment (%s): decided structurally' % ex_)
+        return False
+    run.inst('TEMPLATE.eval', bh, 'generated handler over %d callback kinds x answers' % n_ev, bad is None,
+             '' if bad is None else ('with a %s callback answering %s the generated handler %s: the templated chart does not behave like the hand-written one'
+                                     % (bad[0], bad[1], '; '.join(bad[2]))), obligation=True)
+    return True
+
+
+
+def template_protocol_structural(run, model, bh, g, chart, ev):
     # ---- TEMPLATE.protocol
     rets = [n for n in walk_shallow(bh.node) if isinstance(n, ast.Return)]
     ok = len(rets) == 1 and isinstance(rets[0].value, ast.Name)
@@ -343,6 +394,31 @@ def check(run, model, tier):
     okc = any(isinstance(it.context_expr, ast.Call) and norm(it.context_expr.func) == chart + '.signal_callback' and norm(it.context_expr.args[0]) == ev
               for w in withs for it in w.items if isinstance(it.context_expr, ast.Call) and it.context_expr.args)
     run.inst('TEMPLATE.protocol', bh, 'the callback comes from the signal registry for this event', okc, 'signal_callback(e, name) is no longer consulted', obligation=True)
+
+
+def check(run, model, tier):
+    run.explanation = ('Protocol-shape analysis of the template-generated handler, key-structure agreement of the two registries between their '
+                       'writers, the runtime readers and to_code, a complete enumeration of the text fragments to_code can emit (assembled with '
+                       'placeholder identifiers, parsed, and checked against the handler shape the processor assumes), and attribute-type discipline '
+                       'of Factory. Equality of behaviour for every event sequence is not decided; these are its structural necessary conditions.')
+    for r, t in (('TEMPLATE.protocol', 'generated handler: callback status returned; UNHANDLED -> (SUPER, parent) into (status, temp.fun)'),
+                 ('TABLE.registries', '_lookup[name][signal] and _parents[name]: writers, runtime readers and to_code agree'),
+                 ('CODEGEN.fragments', 'all emitted fragments, assembled, parse into a protocol-conforming handler'),
+                 ('FACTORY.attributes', 'Factory subscripts only its name->blueprint table; create/nest/catch/start_at/to_code wiring')):
+        run.rule(r, t)
+    hq = model.cls('HsmWithQueues')
+    tmpl = model.func('hsm.state_method_template')
+    base = list(tmpl.nested.values())
+    if len(base) != 1:
+        raise AnalysisError('state_method_template: expected one nested handler')
+    bh = base[0]
+    g = cfg_of(bh)
+    run.touch(bh, g)
+    chart, ev = bh.params[0], bh.params[1]
+    # ---- TEMPLATE.protocol: decided by evaluating the generated handler with stub registries (finite evaluator); the structural reading is the fall-back
+    tdec = template_eval(run, model, bh)
+    if not tdec:
+        template_protocol_structural(run, model, bh, g, chart, ev)
     run.rule('REG.per-instance', 'the callback / parent registries (and every other container the chart classes fill through self) belong to the instance, not to the class')
     from sa import ident as _ident
     _ident.check_per_instance_state(run, model, 'REG.per-instance', ['HsmEventProcessor', 'InstrumentedHsmEventProcessor', 'HsmWithQueues', 'ActiveObject', 'Factory'])
@@ -437,7 +513,7 @@ def check(run, model, tier):
               if isinstance(it.optional_vars, ast.Name) and 'signal_callback' in norm(it.context_expr)}
     n_cb = 0
     for n in gt_.nodes:
-        if n.kind in ('entry', 'exit', 'xexit', 'def'):
+        if n.kind in ('entry', 'exit', 'xexit', 'def') or tdec:
             continue
         for c in n.calls():
             if isinstance(c.func, ast.Name) and c.func.id in cbvars:
@@ -451,7 +527,7 @@ def check(run, model, tier):
                          '' if ok else ('the template handler calls the registered callback as %s without distinguishing bound methods (called with the event) from plain functions (called with '
                                         'chart and event): a handler registered as a bound method of a delegate object is called with the wrong arguments / the wrong self' % norm(c)),
                          node=c, obligation=True)
-    run.floor('template: callback call sites', n_cb, 2)
+    run.floor('template: callback call sites', n_cb, 0 if tdec else 2)
     rkeys = [norm(n.slice) for n in walk_shallow(sc.node) if isinstance(n, ast.Subscript)]
     ok = any(k.endswith('.signal') for k in rkeys)
     run.inst('TABLE.registries', sc, 'callbacks looked up under [state name][e.signal]', ok, 'signal_callback looks up %s' % rkeys, obligation=True)
@@ -459,7 +535,8 @@ def check(run, model, tier):
     dflt = [h for h in sc.nested.values()]
     ok = len(dflt) == 1 and all(isinstance(n.value, ast.Attribute) and status_const(n.value) == 'UNHANDLED' for n in walk_shallow(dflt[0].node) if isinstance(n, ast.Return))
     run.inst('TEMPLATE.protocol', sc, 'an unregistered signal answers UNHANDLED', ok, 'the default callback no longer answers UNHANDLED: unregistered events stop bubbling', obligation=True)
-    wk = [norm(n.slice) for n in walk_shallow(rp.node) if isinstance(n, ast.Subscript) and isinstance(n.ctx, ast.Store)]
+    from sa.util import expand_locals as _xl2
+    wk = [norm(_xl2(n.slice, rp.node, params=rp.params)) for n in walk_shallow(rp.node) if isinstance(n, ast.Subscript) and isinstance(n.ctx, ast.Store)]
     ok = any('.__name__' in k for k in wk)
     run.inst('TABLE.registries', rp, 'parents stored under the state name', ok, 'register_parent stores under %s' % wk, obligation=True)
     # ---- CODEGEN: decided by evaluating to_code where the evaluator can follow it; the fragment enumeration below is the fall-back
